@@ -77,6 +77,43 @@ type MsgSpec struct {
 	WithInt  bool        `json:"with_intermediate,omitempty"`
 	Extra    [][2]string `json:"extra_headers,omitempty"` // generic headers set through SetGenHeader
 	NoUA     bool        `json:"no_ua,omitempty"`
+	// Middleware: message middlewares installed with WithMiddleware: footer (appends a footer to every text part, once),
+	// header (sets a generic header), encoding (switches every part to base64), attach (adds an attachment, once)
+	Middleware []string `json:"middleware,omitempty"`
+}
+
+// specMiddleware is a mail.Middleware of one of the kinds above.
+type specMiddleware struct{ kind string }
+
+const mwFooter = "\r\n-- \r\nfooter added by a middleware\r\n"
+
+func (w specMiddleware) Type() mail.MiddlewareType { return mail.MiddlewareType("verif-" + w.kind) }
+
+func (w specMiddleware) Handle(m *mail.Msg) *mail.Msg {
+	switch w.kind {
+	case "footer":
+		for _, p := range m.GetParts() {
+			c, err := p.GetContent()
+			if err != nil || strings.HasSuffix(string(c), mwFooter) {
+				continue
+			}
+			p.SetContent(string(c) + mwFooter)
+		}
+	case "header":
+		m.SetGenHeader("X-Verif-Middleware", "seen")
+	case "encoding":
+		for _, p := range m.GetParts() {
+			p.SetEncoding(mail.EncodingB64)
+		}
+	case "attach":
+		for _, f := range m.GetAttachments() {
+			if f.Name == "from-middleware.txt" {
+				return m
+			}
+		}
+		_ = m.AttachReader("from-middleware.txt", strings.NewReader("attached by a middleware\r\n"))
+	}
+	return m
 }
 
 // Fault makes a content producer fail: after emitting After bytes (After<0: after
@@ -222,6 +259,9 @@ func (s *MsgSpec) Build(env *Env) (*mail.Msg, error) {
 	}
 	if s.NoUA {
 		opts = append(opts, mail.WithNoDefaultUserAgent())
+	}
+	for _, k := range s.Middleware {
+		opts = append(opts, mail.WithMiddleware(specMiddleware{k}))
 	}
 	m := mail.NewMsg(opts...)
 	if s.ID != "" {
